@@ -122,7 +122,7 @@ PROPS = {
         "modules": ["CambrianModel.Props.C01"],
         "theorems": ["Cambrian.Props.C01_init", "Cambrian.Props.C01_guess", "Cambrian.Props.C01_cross",
                      "Cambrian.Props.C01_mut", "Cambrian.Props.C01_run", "Cambrian.Props.C01_report", "Cambrian.Props.C01_accepted_wf", "Cambrian.Props.C01_offspring_alg", "Cambrian.Props.C01_run_alg"],
-        "correspondences": ["ops", "algo", "codec", "spec"],
+        "correspondences": ["ops", "algo", "codec", "spec", "run"],
         "trusted": OPS_TRUST + CODEC_TRUST + CTL_TRUST,
         "assumptions": ["map keys are machine usize values (keysBounded)", "float law FL-cast for the guess reader",
                         "C01_run: every offspring the random decisions supply is one the operators can produce (LegalFrom) - checked on every in-run operator call by K-algo"],
